@@ -461,10 +461,34 @@ fn connect_front(addr: std::net::SocketAddr) -> RawConn {
 /// TLS client connection to sozu's HTTPS listener: local-resource errors are inconclusive, every
 /// other error goes back to the case (which reports it as a failed transfer)
 fn tls_front(addr: std::net::SocketAddr, io_timeout: Duration) -> RigResult<TlsStream> {
-    match tls_connect(addr, "localhost", &["h2"], io_timeout) {
-        Err(e) if local_resource(&e) => inconclusive("tls client connect (local resources)", e),
-        other => other,
+    // The handshake gets its own generous deadline: `io_timeout` (often a few milliseconds, it paces the
+    // scripted client's read loop) must not apply to it - a handshake that the busy worker answers
+    // after 10 ms is no observation about a transfer. A handshake that still times out is a set-up
+    // failure: retried, then the case is inconclusive. Everything else the listener does (refusing,
+    // resetting, a TLS alert) goes back to the case, which reports it.
+    let mut last = None;
+    for attempt in 0..SETUP_ATTEMPTS {
+        match tls_connect(addr, "localhost", &["h2"], Duration::from_secs(3)) {
+            Ok(s) => {
+                let t = Some(io_timeout);
+                if s.sock.set_read_timeout(t).and_then(|_| s.sock.set_write_timeout(t)).is_err() {
+                    inconclusive("tls client socket options", "set_read_timeout / set_write_timeout failed");
+                }
+                return Ok(s);
+            }
+            Err(e) if local_resource(&e) => inconclusive("tls client connect (local resources)", e),
+            Err(e) => {
+                let t = format!("{e:?}");
+                let timed_out = t.contains("WouldBlock") || t.contains("TimedOut") || matches!(e, RigError::Timeout(_));
+                if !timed_out {
+                    return Err(e);
+                }
+                last = Some(e);
+                std::thread::sleep(Duration::from_millis(50 * (attempt as u64 + 1)));
+            }
+        }
     }
+    inconclusive("tls handshake timed out", last)
 }
 
 #[derive(Default)]
@@ -2267,7 +2291,9 @@ fn case_front_hpack(ctx: &mut Ctx, tls: &mut TlsCtx, name: &str, start: Option<u
                 return;
             }
         }
-        while !stop_b.load(std::sync::atomic::Ordering::Relaxed) {
+        // (an accept loop never outlives its case by much, even when the case ends on a set-up panic)
+        let born = Instant::now();
+        while !stop_b.load(std::sync::atomic::Ordering::Relaxed) && born.elapsed() < Duration::from_secs(30) {
             std::thread::sleep(Duration::from_millis(5));
         }
     });
@@ -2908,6 +2934,8 @@ struct LedgerClient {
     /// streams the client has reset: their DATA still counts against the connection window only
     cancelled: std::collections::BTreeSet<u32>,
     ping_acks: Vec<Vec<u8>>,
+    /// `(type, flags, stream, length)` of the last frames written, oldest first (evidence when sozu calls them malformed)
+    sent_log: std::collections::VecDeque<(u8, u8, u32, usize)>,
 }
 
 impl LedgerClient {
@@ -2917,7 +2945,7 @@ impl LedgerClient {
             stream_avail: BTreeMap::new(), conn_credit: 0, sent_total: 0, data_started: false, full_window: 65535, rst: BTreeMap::new(),
             status: BTreeMap::new(), ended: Default::default(), goaway: None, settings_seen: false, settings_acked: false, closed: None, out: vec![],
             bodies: BTreeMap::new(), recv_limits: None, recv_conn_left: 0, recv_stream_left: BTreeMap::new(), recv_violations: vec![],
-            cancelled: Default::default(), ping_acks: vec![],
+            cancelled: Default::default(), ping_acks: vec![], sent_log: Default::default(),
         }
     }
 
@@ -2927,9 +2955,35 @@ impl LedgerClient {
         self.recv_conn_left = conn;
     }
 
+    /// wait for sozu's SETTINGS and the ACK of ours. Nothing at all within 5 s on a connection that is
+    /// still open is a set-up failure of the rig (loaded machine), not a verdict about a transfer.
+    fn handshake(&mut self) {
+        let t = Instant::now();
+        while !(self.settings_seen && self.settings_acked) && t.elapsed() < Duration::from_secs(5) && !self.over() {
+            self.pump();
+        }
+        if !self.settings_seen && !self.over() {
+            inconclusive("HTTP/2 settings exchange", "no SETTINGS from sozu within 5 s of the TLS handshake");
+        }
+    }
+
     fn flush(&mut self) {
         use std::io::Write;
         if !self.out.is_empty() {
+            let mut p = 0usize;
+            while self.out.len() >= p + 9 {
+                let h = &self.out[p..p + 9];
+                let len = ((h[0] as usize) << 16) | ((h[1] as usize) << 8) | h[2] as usize;
+                self.sent_log.push_back((h[3], h[4], u32::from_be_bytes([h[5], h[6], h[7], h[8]]), len));
+                if self.sent_log.len() > 16 {
+                    self.sent_log.pop_front();
+                }
+                p += 9 + len;
+            }
+            if p != self.out.len() {
+                // never happens with the builders above; recorded rather than asserted
+                self.sent_log.push_back((0xff, 0, 0, self.out.len()));
+            }
             if self.st.write_all(&self.out).and_then(|_| self.st.flush()).is_err() {
                 let _ = self.st.flush();
             }
@@ -3112,7 +3166,9 @@ fn case_front_rxledger(ctx: &mut Ctx, tls: &mut TlsCtx, name: &str, steps: &[RxS
     // backend: every complete request is answered 200 "ok"; any number of connections
     let bt = std::thread::spawn(move || {
         let mut handlers = vec![];
-        while !stop_b.load(std::sync::atomic::Ordering::Relaxed) {
+        // (an accept loop never outlives its case by much, even when the case ends on a set-up panic)
+        let born = Instant::now();
+        while !stop_b.load(std::sync::atomic::Ordering::Relaxed) && born.elapsed() < Duration::from_secs(30) {
             if let Ok(mut b) = be.accept(Duration::from_millis(50)) {
                 let stop_c = stop_b.clone();
                 handlers.push(std::thread::spawn(move || {
@@ -3159,10 +3215,7 @@ fn case_front_rxledger(ctx: &mut Ctx, tls: &mut TlsCtx, name: &str, steps: &[RxS
         return case;
     }
     // sozu's SETTINGS, its initial connection WINDOW_UPDATE and the ACK of ours, before any DATA
-    let t_hs = Instant::now();
-    while !(cl.settings_seen && cl.settings_acked) && t_hs.elapsed() < Duration::from_secs(3) && !cl.over() {
-        cl.pump();
-    }
+    cl.handshake();
     for _ in 0..3 {
         cl.pump();
     }
@@ -3508,7 +3561,9 @@ fn case_backend_stream_limit(ctx: &mut Ctx, tls: &mut TlsCtx, n: u32, k: usize, 
     let (stop_b, shared_b) = (stop.clone(), shared.clone());
     let bt = std::thread::spawn(move || {
         let mut handlers = vec![];
-        while !stop_b.load(std::sync::atomic::Ordering::Relaxed) {
+        // (an accept loop never outlives its case by much, even when the case ends on a set-up panic)
+        let born = Instant::now();
+        while !stop_b.load(std::sync::atomic::Ordering::Relaxed) && born.elapsed() < Duration::from_secs(30) {
             if let Ok(c) = be.accept(Duration::from_millis(20)) {
                 let no = {
                     let mut g = shared_b.lock().unwrap_or_else(|e| e.into_inner());
@@ -3543,10 +3598,7 @@ fn case_backend_stream_limit(ctx: &mut Ctx, tls: &mut TlsCtx, n: u32, k: usize, 
         fails.push(Fail { class: "h2tls-h2c-transfer-failed".into(), detail: "write hello".into(), case: case.clone() });
         return case;
     }
-    let t_hs = Instant::now();
-    while !(cl.settings_seen && cl.settings_acked) && t_hs.elapsed() < Duration::from_secs(3) && !cl.over() {
-        cl.pump();
-    }
+    cl.handshake();
     let t_start = Instant::now();
     let mut sids: Vec<u32> = vec![];
     let mut answered_at: BTreeMap<u32, Duration> = BTreeMap::new();
@@ -3879,7 +3931,9 @@ fn case_cl_matrix(ctx: &mut Ctx, tls: &mut TlsCtx, cc: &ClCase, fails: &mut Vec<
     // head when the declared body does not come (then goes on reading that body, as servers do)
     let bt = std::thread::spawn(move || {
         let mut handlers = vec![];
-        while !stop_b.load(std::sync::atomic::Ordering::Relaxed) {
+        // (an accept loop never outlives its case by much, even when the case ends on a set-up panic)
+        let born = Instant::now();
+        while !stop_b.load(std::sync::atomic::Ordering::Relaxed) && born.elapsed() < Duration::from_secs(30) {
             if let Ok(mut b) = be.accept(Duration::from_millis(15)) {
                 let (stop_c, raws_c) = (stop_b.clone(), raws_b.clone());
                 handlers.push(std::thread::spawn(move || {
@@ -3940,10 +3994,7 @@ fn case_cl_matrix(ctx: &mut Ctx, tls: &mut TlsCtx, cc: &ClCase, fails: &mut Vec<
         fails.push(Fail { class: "h2front-transfer-failed".into(), detail: "write hello".into(), case: case.clone() });
         return None;
     }
-    let t_hs = Instant::now();
-    while !(cl.settings_seen && cl.settings_acked) && t_hs.elapsed() < Duration::from_secs(3) && !cl.over() {
-        cl.pump();
-    }
+    cl.handshake();
     // ---- the request under test (stream 1)
     let p1 = format!("{path}/t");
     let body: Vec<u8> = (0..cc.total()).map(|i| b'a' + (i % 26) as u8).collect();
@@ -4300,7 +4351,9 @@ fn case_window_rules_front(ctx: &mut Ctx, tls: &mut TlsCtx, name: &str, ops: &[W
     // HTTP/1.1 backend: holds every answer until released, so that both streams stay open in sozu
     let bt = std::thread::spawn(move || {
         let mut hs = vec![];
-        while !stop_b.load(std::sync::atomic::Ordering::Relaxed) {
+        // (an accept loop never outlives its case by much, even when the case ends on a set-up panic)
+        let born = Instant::now();
+        while !stop_b.load(std::sync::atomic::Ordering::Relaxed) && born.elapsed() < Duration::from_secs(30) {
             if let Ok(mut b) = be.accept(Duration::from_millis(15)) {
                 let (stop_c, rel_c, arr_c) = (stop_b.clone(), rel_b.clone(), arr_b.clone());
                 hs.push(std::thread::spawn(move || {
@@ -4351,10 +4404,7 @@ fn case_window_rules_front(ctx: &mut Ctx, tls: &mut TlsCtx, name: &str, ops: &[W
         fails.push(Fail { class: "h2front-transfer-failed".into(), detail: "write hello".into(), case: case.clone() });
         return case;
     }
-    let t_hs = Instant::now();
-    while !(cl.settings_seen && cl.settings_acked) && t_hs.elapsed() < Duration::from_secs(3) && !cl.over() {
-        cl.pump();
-    }
+    cl.handshake();
     for sid in [1u32, 3] {
         let p = format!("{path}/s{sid}");
         let hs: Vec<(&[u8], &[u8])> = vec![(b":method", b"GET"), (b":scheme", b"https"), (b":path", p.as_bytes()), (b":authority", b"localhost")];
@@ -4431,7 +4481,9 @@ fn case_window_rules_back(ctx: &mut Ctx, tls: &mut TlsCtx, name: &str, ops: &[Wi
     let bt = std::thread::spawn(move || {
         let mut hs = vec![];
         let mut conn_no = 0usize;
-        while !stop_b.load(std::sync::atomic::Ordering::Relaxed) {
+        // (an accept loop never outlives its case by much, even when the case ends on a set-up panic)
+        let born = Instant::now();
+        while !stop_b.load(std::sync::atomic::Ordering::Relaxed) && born.elapsed() < Duration::from_secs(30) {
             let Ok(mut c) = be.accept(Duration::from_millis(15)) else { continue };
             conn_no += 1;
             let scripted = conn_no == 1;
@@ -4601,10 +4653,7 @@ fn case_window_rules_back(ctx: &mut Ctx, tls: &mut TlsCtx, name: &str, ops: &[Wi
         fails.push(Fail { class: "h2tls-h2c-transfer-failed".into(), detail: "write hello".into(), case: case.clone() });
         return case;
     }
-    let t_hs = Instant::now();
-    while !(cl.settings_seen && cl.settings_acked) && t_hs.elapsed() < Duration::from_secs(3) && !cl.over() {
-        cl.pump();
-    }
+    cl.handshake();
     for sid in [1u32, 3] {
         let p = format!("{path}/s{sid}");
         let hs: Vec<(&[u8], &[u8])> = vec![(b":method", b"GET"), (b":scheme", b"https"), (b":path", p.as_bytes()), (b":authority", b"localhost")];
@@ -4829,7 +4878,9 @@ fn case_peer_reset(ctx: &mut Ctx, tls: &mut TlsCtx, name: &str, fails: &mut Vec<
     let bt = std::thread::spawn(move || {
         let mut hs = vec![];
         let mut no = 0usize;
-        while !stop_b.load(std::sync::atomic::Ordering::Relaxed) {
+        // (an accept loop never outlives its case by much, even when the case ends on a set-up panic)
+        let born = Instant::now();
+        while !stop_b.load(std::sync::atomic::Ordering::Relaxed) && born.elapsed() < Duration::from_secs(30) {
             let Ok(mut b) = be.accept(Duration::from_millis(15)) else { continue };
             no += 1;
             if let Ok(mut g) = shared_b.lock() {
@@ -4888,10 +4939,7 @@ fn case_peer_reset(ctx: &mut Ctx, tls: &mut TlsCtx, name: &str, fails: &mut Vec<
         fails.push(Fail { class: "h2front-transfer-failed".into(), detail: "write hello".into(), case: case.clone() });
         return case;
     }
-    let t_hs = Instant::now();
-    while !(cl.settings_seen && cl.settings_acked) && t_hs.elapsed() < Duration::from_secs(3) && !cl.over() {
-        cl.pump();
-    }
+    cl.handshake();
     let up = if back_h2 { 200_000usize } else { 0 };
     let mut uploads: BTreeMap<u32, (Vec<u8>, usize, bool)> = BTreeMap::new();
     let open = |cl: &mut LedgerClient, uploads: &mut BTreeMap<u32, (Vec<u8>, usize, bool)>, idx: usize, len: usize| {
@@ -4979,8 +5027,8 @@ fn case_peer_reset(ctx: &mut Ctx, tls: &mut TlsCtx, name: &str, fails: &mut Vec<
         }
     }
     let summary = format!(
-        "client: statuses {:?}, resets {:?}, goaway {:?}, closed {:?}, cancelled at {:?}; backend: {} connection(s), complete requests {:?}, reset request {:?}, notes {:?}",
-        cl.status, cl.rst, cl.goaway, cl.closed, cancelled_at, g.connections, g.complete.iter().map(|(c, i, b)| (c, i, b.len())).collect::<Vec<_>>(), g.reset_idx, g.notes
+        "client: statuses {:?}, resets {:?}, goaway {:?}, closed {:?}, cancelled at {:?}, last frames written (type, flags, stream, length) {:?}; backend: {} connection(s), complete requests {:?}, reset request {:?}, notes {:?}",
+        cl.status, cl.rst, cl.goaway, cl.closed, cancelled_at, cl.sent_log, g.connections, g.complete.iter().map(|(c, i, b)| (c, i, b.len())).collect::<Vec<_>>(), g.reset_idx, g.notes
     );
     let mut push = |class: &str, what: String| fails.push(Fail { class: class.into(), detail: format!("{what}; {summary}"), case: case.clone() });
     for v in cl.recv_violations.iter().take(1) {
